@@ -110,6 +110,19 @@ def r2_r5_mul(facts, rep):
                 if isinstance(u, T) and u.op == "collect" and isinstance(u.args[0], T) and u.args[0].op == "map":
                     src, clos = u.args[0].args
                     good = src == T("iter", Sym("other.unit"))
+                if not good and isinstance(unit, Agg) and unit.path == "compound::Compound":
+                    # an explicit loop instead of map / collect: the new map receives, for the one symbolic entry of the right
+                    # unit, (key, State{power * n, prefix}) - or nothing on the path where that product is zero
+                    ins = [e for e in r["log"] if e[0] == "insert"]
+                    pw = T("i*", Sym("other.unit.state0.power"), Sym("n"))
+                    zero = None
+                    for p_, b_ in r["pc"]:
+                        if isinstance(p_, T) and p_.op in ("Ne", "Eq") and pw in p_.args and Const(0) in p_.args:
+                            zero = (not b_) if p_.op == "Ne" else b_
+                    want_state = Agg("adt", "compound::State", 0, "State", (pw, Sym("other.unit.state0.prefix")))
+                    iterated = any(e[0] == "iterate" and e[1] == "other.unit" for e in r["log"])
+                    if iterated and ((zero is True and not ins) or (zero is not True and len(ins) == 1 and ins[0][2] == "other.unit.key0" and ins[0][3] == want_state)):
+                        good, clos = True, None
                 rep.ob("C04-R5", "mul:%s:shape" % cls, good and r["kind"] == "ok" and untouched,
                        "with an empty left unit mul returns %r (values %s)" % (unit, "untouched" if untouched else "CHANGED"), r["site"])
                 if good and isinstance(clos, Agg) and clos.kind == "closure":
@@ -185,7 +198,7 @@ def r3_reconstruct(facts, rep):
         n += 1
         dom, store = r["dom"], r["store"]
         key = "reconstruct:" + "&".join("%s%s" % ("" if b else "!", repr(p)[:40]) for p, b in r["pc"])
-        good = bm[0][1] == T("i*", Sym("power"), Sym("n"))
+        good = bm[0][1] in (T("i*", Sym("power"), Sym("n")), T("i*", Sym("power"), Sym("side")))
         mp = Sym("mod_power")
         cells = dict(zip([c[2] for c in r["cellnames"]], [r["cells"].get((0, 700 + i)) for i in range(len(r["cellnames"]))]))
         base_has = dom.decide(store, T("contains", Sym("names"), Sym("base")))
@@ -239,7 +252,7 @@ def r3_reconstruct(facts, rep):
                 n2 += 1
         rep.ob("C04-R3", "reconstruct:scratch-table-per-unit", not stale and n2 >= 1,
                "; ".join(sorted(set(stale))[:2]) if stale else "every unit's base powers are read into an empty table (%d two-unit path(s))" % n2,
-               facts.fn("compound::Compound::mul::reconstruct").site())
+               facts.fn(U.reconstruct_name(facts)).site())
 
 
 def r9_operand_faithful(facts, rep, rule="C04-R9"):
